@@ -13,19 +13,22 @@ EXTENDS Integers, Sequences, FiniteSets, TLC, Json
 Kinds == {"GET", "POST", "HEAD", "CONNECT", "GETviaProxy", "CONNECTviaProxy", "MITMGET", "MITMGETviaRej", "MITMHEADviaRej"}
 Faults == {"dial_refused", "dial_timeout", "tls_garbage", "tls_untrusted", "tls_expired", "tls_wrongname",
            "proxy_connect_403", "proxy_connect_407", "proxy_connect_502", "proxy_connect_403_body",
+           "proxy_connect_100",    \* an interim reply and then silence: neither a tunnel nor a rejection
            "proxy_connect_302",    \* a refusal that is not a 4xx/5xx (captive portal, login redirect): still not a tunnel
            \* the upstream proxy accepts the connection and then says nothing: never answers the CONNECT / never
            \* completes its TLS handshake (https proxy) - the connect time-out applies
            "proxy_stall", "proxy_tls_stall",
            "cut_head", "cut_body_cl", "cut_body_chunked", "rst_head", "rst_body",
-           "bad_status_line", "bad_field", "bad_field_ctl", "bad_chunk_size", "bad_gzip", "trailing_garbage", "none"}
+           "bad_status_line", "bad_field", "bad_field_ctl", "bad_value_ctl", "bogus_101", "bad_chunk_size", "bad_gzip", "trailing_garbage", "none"}
 \* which faults can occur for which kind of request
 Applies(f, k) ==
-  CASE k \in {"MITMGETviaRej", "MITMHEADviaRej"} -> f \in {"proxy_connect_403", "proxy_connect_407", "proxy_connect_502", "proxy_connect_403_body", "proxy_connect_302"}
+  CASE k \in {"MITMGETviaRej", "MITMHEADviaRej"} -> f \in {"proxy_connect_403", "proxy_connect_407", "proxy_connect_502", "proxy_connect_403_body", "proxy_connect_302", "proxy_connect_100"}
     [] f \in {"proxy_stall", "proxy_tls_stall"} -> k = "CONNECTviaProxy"
     [] f \in {"tls_garbage", "tls_untrusted", "tls_expired", "tls_wrongname"} -> k = "MITMGET"
-    [] f \in {"proxy_connect_403", "proxy_connect_407", "proxy_connect_502", "proxy_connect_403_body", "proxy_connect_302"} -> k \in {"CONNECTviaProxy", "MITMGETviaRej", "MITMHEADviaRej"}
-    [] f \in {"cut_head", "rst_head", "bad_status_line", "bad_field", "bad_field_ctl", "trailing_garbage", "none"} -> k # "CONNECT"
+    [] f \in {"proxy_connect_403", "proxy_connect_407", "proxy_connect_502", "proxy_connect_403_body", "proxy_connect_302", "proxy_connect_100"} -> k \in {"CONNECTviaProxy", "MITMGETviaRej", "MITMHEADviaRej"}
+    [] f \in {"cut_head", "rst_head", "bad_status_line", "bad_field", "bad_field_ctl", "bad_value_ctl", "trailing_garbage", "none"} -> k # "CONNECT"
+    \* a 101 nobody asked for (the request was no upgrade request): no tunnel, and no head has been sent to the client yet
+    [] f = "bogus_101" -> k \in {"GET", "POST", "GETviaProxy", "MITMGET"}
     [] f \in {"cut_body_cl", "cut_body_chunked", "rst_body", "bad_chunk_size", "bad_gzip"} -> k \notin {"CONNECT", "CONNECTviaProxy", "HEAD"}
     [] OTHER -> TRUE
 \* what the client must get: an error response of the given status set, a connection closed after the
@@ -41,6 +44,7 @@ Statuses(f) ==
     [] f = "proxy_connect_407" -> {407}
     [] f = "proxy_connect_502" -> {502}
     [] f = "proxy_connect_302" -> {302}
+    [] f = "proxy_connect_100" -> 500..599
     [] OTHER -> 500..599
 Outcome(f, k) ==
   IF f = "none" THEN [o |-> "full", st |-> {200}]
@@ -60,7 +64,7 @@ LogModes == {"errors", "headers", "body"}
 BodyPhase(f) == f \in {"cut_body_cl", "cut_body_chunked", "rst_body", "bad_chunk_size", "bad_gzip", "trailing_garbage", "none"}
 Cases == {c \in [f : Faults, k : Kinds, log : LogModes] :
             /\ Applies(c.f, c.k)
-            /\ ~(c.k = "CONNECTviaProxy" /\ c.f \in {"cut_head", "rst_head", "bad_status_line", "bad_field", "bad_field_ctl", "trailing_garbage"})
+            /\ ~(c.k = "CONNECTviaProxy" /\ c.f \in {"cut_head", "rst_head", "bad_status_line", "bad_field", "bad_field_ctl", "bad_value_ctl", "trailing_garbage"})
             /\ (c.log # "errors" => BodyPhase(c.f) /\ c.k \in {"GET", "POST", "GETviaProxy", "MITMGET"})}
 
 VARIABLE dummy
